@@ -6,6 +6,9 @@
      x/vault/keeper/vault.go:679  GetAmountOfOtherToken
      x/liquidationsV2/keeper/liquidate.go:602  WithdrawAppReserveFundsFn, :721 MsgCloseDutchAuctionForBorrow
                           (only its transfer out of the auction account)
+   The model follows the code AFTER the repairs fixes/C10-F2 (WithdrawAppReserveFundsFn returns an error
+   when the reserve record is smaller than the request) and fixes/C10-F3 (the incentive of an externally
+   initiated auction goes to ExternalKeeperAddress).
    sdk.Dec values are their 10^18-scaled integers (Lib/DecArith).  Definitions only. *)
 From Comdex Require Import Lib.Base Lib.DecArith.
 
@@ -206,8 +209,8 @@ Definition AUC_D : Z := 1.   (* auctionsV2 module, debt denom *)
 Definition OWN_C : Z := 2.   (* position owner(s), collateral *)
 Definition COL_D : Z := 3.   (* collector module *)
 Definition KEE_D : Z := 4.   (* internal keeper (the liquidator) *)
-Definition INI_D : Z := 5.   (* external initiator *)
-Definition NUL_D : Z := 6.   (* the empty address "" *)
+Definition INI_D : Z := 5.   (* external initiator = LockedVault.ExternalKeeperAddress *)
+Definition NUL_D : Z := 6.   (* the empty address "" (observed only: nothing is ever sent there) *)
 Definition LIQ_D : Z := 7.   (* liquidationsV2 module (holds the app reserve funds) *)
 Definition BRN_D : Z := 8.   (* burned *)
 Definition POOL_D : Z := 9.  (* lend pool module *)
@@ -235,8 +238,7 @@ Record bidres := mkR {
   r_bonus : Z;      (* the part of r_recv that is the bonus conversion *)
   r_closed : bool;
   r_exh : bool;     (* collateral-exhausted branch *)
-  r_short : Z;      (* debtGettingLeft requested from the reserve *)
-  r_topup : Z       (* what the reserve actually transferred *)
+  r_topup : Z       (* debtGettingLeft, transferred from the app reserve *)
 }.
 
 (* ------------------------------------------------------------------------------------------ *)
@@ -244,14 +246,21 @@ Record bidres := mkR {
 
 Definition keeper_incentive (cf : acfg) (fee : Z) : Z := dtrunc_int (dmul (c_ki cf) (dec_of_int fee)).
 
+(* the incentive of an externally initiated auction (paid only when positive) *)
+Definition ext_incentive (cf : acfg) (lk : locked) : Z :=
+  let ki := keeper_incentive cf (l_fee lk) in if ki >? 0 then ki else 0.
+
 (* the initiator-specific settlement of the closing bid; returns the ledger and the external fee book *)
 Definition settle (cf : acfg) (lk : locked) (L : ledger) (xf : Z) : outcome (ledger * Z) :=
   if l_init lk =? 2 then
-    (* external: finalDebtToInitiator = TargetDebt - penalty; incentive to InternalKeeperAddress (= "") *)
+    (* external: finalDebtToInitiator = TargetDebt - penalty; incentive to ExternalKeeperAddress, the
+       rest of the penalty is booked as auction-module fees *)
     if l_target lk - l_fee lk <? 0 then Panic else
     let ki := keeper_incentive cf (l_fee lk) in
-    (* SendCoinsFromModuleToAccount to the empty address panics in the bank store ("key is nil") *)
-    do (L1, pen) <- (if ki >? 0 then Panic else Ok (L, l_fee lk));
+    do (L1, pen) <- (if ki >? 0 then
+                       if l_fee lk - ki <? 0 then Panic          (* Coin.Sub going negative *)
+                       else do L' <- oerr 9 (send L AUC_D INI_D ki); Ok (L', l_fee lk - ki)
+                     else Ok (L, l_fee lk));
     do L2 <- oerr 10 (send L1 AUC_D INI_D (l_target lk - l_fee lk));
     Ok (L2, xf + pen)
   else if l_init lk =? 0 then
@@ -282,7 +291,7 @@ Definition place_bid (cf : acfg) (lk : locked) (a : auction) (s : bstate)
   let tot := q + qb in
   let exh := negb (tot <=? a_coll a) in
   if full || exh then
-    do (amt1, tot1, s1, short, topup) <-
+    do (amt1, tot1, s1, topup) <-
        (if exh then
           let left := a_coll a in
           do dal <- opanic (conv_c (c_dc cf) (a_price a) (left - qb) (c_dd cf) dp);
@@ -292,11 +301,12 @@ Definition place_bid (cf : acfg) (lk : locked) (a : auction) (s : bstate)
           match rsv s with
           | None => Err 3                              (* ErrorInvalidAppOrAssetData *)
           | Some r =>
-              let pay := (r - dgl >=? 0) && (dgl >? 0) in
-              do L1 <- (if pay then oerr 4 (send (led s) LIQ_D AUC_D dgl) else Ok (led s));
-              Ok (dal, left, mkS L1 (Some (r - dgl)) (xfee s), dgl, if pay then dgl else 0)
+              (* WithdrawAppReserveFundsFn: the reserve must cover the shortfall *)
+              if r - dgl <? 0 then Err 3 else
+              do L1 <- (if dgl >? 0 then oerr 4 (send (led s) LIQ_D AUC_D dgl) else Ok (led s));
+              Ok (dal, left, mkS L1 (Some (r - dgl)) (xfee s), dgl)
           end
-        else Ok (amt, tot, s, 0, 0));
+        else Ok (amt, tot, s, 0));
     do L2 <- (if amt1 >? 0 then oerr 5 (send (led s1) (BID_D who) AUC_D amt1) else Ok (led s1));
     do L3 <- (if tot1 >? 0 then oerr 6 (send L2 AUC_C (BID_C who) tot1) else Ok L2);
     do L4 <- (if l_init lk =? 0 then
@@ -308,7 +318,7 @@ Definition place_bid (cf : acfg) (lk : locked) (a : auction) (s : bstate)
     do L5 <- (if ownleft >? 0 then oerr 8 (send L4 AUC_C OWN_C ownleft) else Ok L4);
     if (tot1 <? 0) || (amt1 <? 0) then Panic else     (* CreateUserBid: NewCoin *)
     do (L6, xf) <- settle cf lk L5 (xfee s1);
-    Ok (mkS L6 (rsv s1) xf, None, mkR amt1 tot1 qb true exh short topup)
+    Ok (mkS L6 (rsv s1) xf, None, mkR amt1 tot1 qb true exh topup)
   else
     (* partial bid *)
     do q' <- opanic (conv_c (c_dd cf) dp amt (c_dc cf) (a_price a));
@@ -326,16 +336,7 @@ Definition place_bid (cf : acfg) (lk : locked) (a : auction) (s : bstate)
     Ok (mkS L3 (rsv s) (xfee s),
         Some (mkAu (a_coll a - tot') (a_debt a - amt) (a_bonus a - share) (a_price a) (a_init a)
                    (a_pco a) (a_pdo a) (a_start a) (a_end a)),
-        mkR amt tot' qb' false false 0 0).
-
-(* known-finding class C10-F2: the collateral-exhausted close asks the app reserve for the shortfall,
-   WithdrawAppReserveFundsFn skips the transfer when the reserve is too small but reports success *)
-Definition kf_C10_2 (r : bidres) : bool := r_exh r && (r_topup r <? r_short r).
-
-(* known-finding class C10-F3: an externally initiated auction pays the keeper incentive to
-   LockedVault.InternalKeeperAddress, which MsgLiquidateExternal leaves empty: every closing bid panics *)
-Definition kf_C10_3 (cf : acfg) (lk : locked) : bool :=
-  (l_init lk =? 2) && (keeper_incentive cf (l_fee lk) >? 0).
+        mkR amt tot' qb' false false 0).
 
 (* ------------------------------------------------------------------------------------------ *)
 (* 7. one auction's life: bids and block ticks, each atomic                                    *)
@@ -349,8 +350,7 @@ Record life := mkLife {
   f_a : option auction;   (* None once closed *)
   f_paid : Z;             (* ghost: sum of debt paid by bidders *)
   f_recv : Z;             (* ghost: sum of collateral received by bidders *)
-  f_top : Z;              (* ghost: sum of reserve transfers *)
-  f_short : Z             (* ghost: sum of shortfalls the reserve did not cover *)
+  f_top : Z               (* ghost: sum of reserve transfers *)
 }.
 
 Definition step (cf : acfg) (lk : locked) (f : life) (o : op) : life :=
@@ -358,12 +358,11 @@ Definition step (cf : acfg) (lk : locked) (f : life) (o : op) : life :=
   | None => f                                          (* GetAuction fails; the iterator skips it *)
   | Some a =>
       match o with
-      | Tick now pc pd => mkLife (f_s f) (Some (tick cf lk now pc pd a)) (f_paid f) (f_recv f) (f_top f) (f_short f)
+      | Tick now pc pd => mkLife (f_s f) (Some (tick cf lk now pc pd a)) (f_paid f) (f_recv f) (f_top f)
       | Bid who amt wd twa =>
           match place_bid cf lk a (f_s f) who amt wd twa with
           | Ok (s', a', r) =>
               mkLife s' a' (f_paid f + r_paid r) (f_recv f + r_recv r) (f_top f + r_topup r)
-                     (f_short f + (r_short r - r_topup r))
           | _ => f                                     (* the message's cache context is dropped *)
           end
       end
@@ -381,11 +380,12 @@ Definition holds_C10_price (init disc prev cur : Z) : bool :=
 Definition holds_C10_price_mono (init prev cur : Z) : bool := (cur <=? prev) && (prev <=? init).
 
 (* one successful bid: [coll], [debt], [bonus], [pc] = the auction record before the bid, [pd] the debt
-   price used; tolerances: one collateral unit per conversion, two debt units in the exhausted branch *)
+   price used; tolerances: one collateral unit per conversion, three debt units in the exhausted branch
+   (proved for the model as Properties/C10.v:c10_bid_price) *)
 Definition holds_C10_bid (dc dd pc pd coll debt bonus paid recv : Z) (closed : bool) : bool :=
   (0 <=? paid) && (0 <=? recv) && (paid <=? debt) && (recv <=? coll) &&
   (if closed
-   then (recv - 2) * (pc * dd) <=? (paid + 2 + bonus) * (pd * dc)
+   then (recv - 2) * (pc * dd) <=? (paid + 3 + bonus) * (pd * dc)
    else (recv - 1) * (pc * dd) <=? paid * (pd * dc)).
 
 (* totals over the life of one auction *)
@@ -393,3 +393,6 @@ Definition holds_C10_totals (target coll paid recv : Z) : bool := (paid <=? targ
 
 (* custody: what the auction account holds beyond the live auctions and the booked fees *)
 Definition holds_C10_custody (residual_c residual_d : Z) : bool := (residual_c =? 0) && (residual_d =? 0).
+
+(* the app reserve: the record is never negative and the liquidation module holds at least that much *)
+Definition holds_C10_reserve (record liq_balance : Z) : bool := (0 <=? record) && (record <=? liq_balance).
